@@ -124,10 +124,8 @@ func judgeGenerations(sc *SrvScenario, h *SrvHistory, res *core.Result, staleKin
 		switch {
 		case q.Stamp == -2:
 			during := "no-catch-up"
-			for _, cu := range h.Mon.CatchUps {
-				if q.Inv < cu.End && q.Ret > cu.Start {
-					during = "catch-up"
-				}
+			if catchUpInside(h, q) {
+				during = "catch-up"
 			}
 			sig := fmt.Sprintf("torn-response|backend=%s|during=%s", bc, during)
 			_ = uniq
@@ -151,15 +149,20 @@ func judgeGenerations(sc *SrvScenario, h *SrvHistory, res *core.Result, staleKin
 				// which in-place catch-up exposed the generation? the first one that ended after it was
 				// published; it belongs to this reload or to an earlier one that had timed out
 				exposed := "none"
+				first := ^uint64(0)
 				for _, cu := range h.Mon.CatchUps {
-					// a catch-up that was still running (or started) after the publication: the call
-					// into RocksDB happens somewhere inside [Start, End]
-					if cu.End > o.Pub {
+					// the point at which the call into RocksDB happened: known exactly on the real
+					// back end; on the stub it lies somewhere inside [Start, End]
+					at := cu.At
+					if at == 0 {
+						at = cu.End
+					}
+					if at > o.Pub && at < first {
 						var k int
 						if _, err := fmt.Sscanf(cu.Ctx, "%d:", &k); err == nil && k < len(h.Ops) {
 							exposed = opClass(h.Ops[k], sc.TimeoutMs)
+							first = at
 						}
-						break
 					}
 				}
 				sig := fmt.Sprintf("failed-reload-visible|backend=%s|exposed-by-catch-up-of=%s", bc, exposed)
@@ -236,15 +239,27 @@ func judgeAgainstGeneration(sc *SrvScenario, h *SrvHistory, res *core.Result) {
 			continue
 		}
 		during := "no-catch-up"
-		for _, cu := range h.Mon.CatchUps {
-			if q.Inv < cu.End && q.Ret > cu.Start {
-				during = "catch-up"
-			}
+		if catchUpInside(h, q) {
+			during = "catch-up"
 		}
 		res.Add("response-not-of-one-generation", fmt.Sprintf("response-not-of-one-generation|backend=%s|during=%s", bc, during),
 			fmt.Sprintf("client %d query %d (%s from %s): all records carry generation %d but the response differs from what generation %d answers: %s",
 				q.Client, q.Idx, describeQ(q), gen.Clients[q.Q.Client%len(gen.Clients)], q.Stamp, q.Stamp, d))
 	}
+}
+
+// catchUpInside tells whether an in-place catch-up took effect while the query was in flight.
+func catchUpInside(h *SrvHistory, q *QRec) bool {
+	for _, cu := range h.Mon.CatchUps {
+		if cu.At != 0 {
+			if q.Inv <= cu.At && cu.At <= q.Ret {
+				return true
+			}
+		} else if q.Inv < cu.End && q.Ret > cu.Start {
+			return true
+		}
+	}
+	return false
 }
 
 func uniq(in []string) []string {
@@ -275,7 +290,7 @@ func srvPopulation(sc *SrvScenario) string {
 
 func drawC05(rt *rapid.T, tier string) SrvScenario {
 	o := srvDrawOpts{backends: []string{"cdb", "cdb", "cdb", "cdb", "rdb1", "rdb2"}, maxClients: 4, maxQueries: 6, maxOps: 5,
-		faults: []string{"missing", "garbage", "nokey", "inject"}}
+		faults: []string{"missing", "garbage", "nokey", "inject", "lowio"}}
 	if tier == "thorough" {
 		o.backends = []string{"cdb", "cdb", "rdb1", "rdb2"}
 		o.maxQueries = 8
